@@ -57,6 +57,9 @@ pub const BIFS: &[&str] = &[
   "reverse", "index of", "union", "distinct values", "flatten", "sort", "list contains", "get value", "get entries", "not", "number", "string",
 ];
 
+/// the built-ins of the property that take any number of arguments (`positional.rs`: an arm `_ =>` / `parameters.len() > 1`)
+pub const VARIADIC: &[&str] = &["all", "any", "append", "concatenate", "max", "mean", "median", "min", "mode", "stddev", "sum", "union"];
+
 #[derive(Clone)]
 struct Call {
   bif: &'static str,
@@ -70,6 +73,8 @@ fn lit_str(s: &str) -> String {
     match c {
       '"' => out.push_str("\\\""),
       '\\' => out.push_str("\\\\"),
+      '\n' => out.push_str("\\n"),
+      '\t' => out.push_str("\\t"),
       c => out.push(c),
     }
   }
@@ -189,6 +194,8 @@ fn unlit(t: &str) -> Option<String> {
       '\\' => match it.next()? {
         '"' => out.push('"'),
         '\\' => out.push('\\'),
+        'n' => out.push('\n'),
+        't' => out.push('\t'),
         _ => return None,
       },
       '"' => return None,
@@ -304,7 +311,7 @@ fn read_flags(arg: Option<&String>) -> Flags {
 
 /// The specified value of a `matches` / `replace` / `split` call and the signature of a deviation, where this
 /// module knows it (see above); arguments are the literal texts of the call.
-fn regex_oracle(call: &Call) -> Option<(Want, &'static str)> {
+fn regex_oracle_literal(call: &Call) -> Option<(Want, &'static str)> {
   let a = &call.args;
   match (call.bif, a.len()) {
     ("matches", 2) | ("matches", 3) => {
@@ -368,6 +375,247 @@ fn regex_oracle(call: &Call) -> Option<(Want, &'static str)> {
       }
     }
     _ => None,
+  }
+}
+
+/// The same for patterns that are regular expressions proper: the verdict of the second implementation `rx`
+/// (counted repetitions, alternation, classes, groups, anchors, the flags s m i x, `$N` in the replacement).
+fn regex_oracle_rx(call: &Call) -> Option<(Want, &'static str)> {
+  let a = &call.args;
+  let letters = |arg: Option<&String>| -> Option<String> {
+    match read_flags(arg) {
+      Flags::Absent => Some(String::new()),
+      Flags::Letters(f) if !f.contains('q') => Some(f),
+      _ => None,
+    }
+  };
+  match (call.bif, a.len()) {
+    ("matches", 2) | ("matches", 3) => {
+      let (s, p) = (unlit(&a[0])?, unlit(&a[1])?);
+      match rx::verdict('m', &s, &p, &letters(a.get(2))?, "")? {
+        rx::Verdict::Invalid => Some((Want::Null, "matches: a pattern that is not a regular expression is accepted")),
+        rx::Verdict::Matches(b) => Some((Want::Bool(b), "matches differs from the regular-expression semantics (second implementation)")),
+        _ => None,
+      }
+    }
+    ("replace", 3) | ("replace", 4) => {
+      let (s, p, r) = (unlit(&a[0])?, unlit(&a[1])?, unlit(&a[2])?);
+      match rx::verdict('r', &s, &p, &letters(a.get(3))?, &r)? {
+        rx::Verdict::Invalid => Some((Want::Null, "replace: a pattern that is not a regular expression is accepted")),
+        rx::Verdict::Replaced(t) => Some((Want::Str(t), "replace differs from the regular-expression semantics (second implementation)")),
+        _ => None,
+      }
+    }
+    ("split", 2) => {
+      let (s, d) = (unlit(&a[0])?, unlit(&a[1])?);
+      match rx::verdict('s', &s, &d, "", "")? {
+        rx::Verdict::Invalid => Some((Want::Null, "split: a delimiter that is not a regular expression is accepted")),
+        rx::Verdict::MatchesEmpty => Some((Want::Null, "split: a delimiter that matches the empty string is accepted")),
+        rx::Verdict::Pieces(v) => Some((Want::Strs(v), "split differs from the regular-expression semantics (second implementation)")),
+        _ => None,
+      }
+    }
+    _ => None,
+  }
+}
+
+fn regex_oracle(call: &Call) -> Option<(Want, &'static str)> {
+  regex_oracle_literal(call).or_else(|| regex_oracle_rx(call))
+}
+
+/// Patterns built from every construct `rx` knows, each with a text it matches: (pattern, the same pattern
+/// written for the flag x, a matching text).
+fn rx_pattern(rng: &mut Rng) -> (String, String, String) {
+  const ALPHA: &[char] = &['a', 'b', 'c', 'x', '1', '2', ',', '-', ' ', 'é'];
+  const META: &[char] = &['.', '+', '*', '?', '(', ')', '|', '[', ']', '{', '}', '^', '$', '\\', '-'];
+  // (text, sample, can match the empty string)
+  fn atom(rng: &mut Rng, depth: u32) -> (String, String, bool) {
+    match rng.below(if depth == 0 { 9 } else { 12 }) {
+      0..=2 => {
+        let c = *rng.pick(ALPHA);
+        (c.to_string(), c.to_string(), false)
+      }
+      3 => {
+        let c = *rng.pick(META);
+        (format!("\\{}", c), c.to_string(), false)
+      }
+      4 => (".".to_string(), rng.pick(ALPHA).to_string(), false),
+      5 | 6 => {
+        let negated = rng.chance(1, 4);
+        let (body, member, outsider) = match rng.below(6) {
+          0 => ("abc", 'b', 'x'),
+          1 => ("a-c", 'c', '1'),
+          2 => ("0-9", '2', 'a'),
+          3 => ("a1,", ',', 'b'),
+          4 => ("-a", '-', 'c'),
+          _ => ("\\dx", 'x', 'a'),
+        };
+        (format!("[{}{}]", if negated { "^" } else { "" }, body), (if negated { outsider } else { member }).to_string(), false)
+      }
+      7 => {
+        let (t, c) = *rng.pick(&[("\\d", '1'), ("\\D", 'a'), ("\\s", ' '), ("\\S", 'b'), ("\\w", 'c'), ("\\W", ',')]);
+        (t.to_string(), c.to_string(), false)
+      }
+      8 => {
+        let c = *rng.pick(&['a', 'b', ',', '-']);
+        (c.to_string(), c.to_string(), false)
+      }
+      _ => {
+        let (t, s, n) = alt(rng, depth - 1, 2);
+        (format!("{}{})", if rng.chance(1, 4) { "(?:" } else { "(" }, t), s, n)
+      }
+    }
+  }
+  fn piece(rng: &mut Rng, depth: u32) -> (String, String, bool) {
+    let (t, s, nullable) = atom(rng, depth);
+    if nullable || rng.chance(2, 5) {
+      return (t, s, nullable);
+    }
+    let (q, times, zero): (String, usize, bool) = match rng.below(8) {
+      0 => ("?".into(), rng.below(2) as usize, true),
+      1 => ("*".into(), rng.below(3) as usize, true),
+      2 => ("+".into(), 1 + rng.below(2) as usize, false),
+      3 | 4 => {
+        let n = rng.below(4) as usize;
+        (format!("{{{}}}", n), n, n == 0)
+      }
+      5 => {
+        let n = rng.below(3) as usize;
+        (format!("{{{},}}", n), n + rng.below(2) as usize, n == 0)
+      }
+      _ => {
+        let n = rng.below(3) as usize;
+        let m = n + rng.below(3) as usize;
+        (format!("{{{},{}}}", n, m), n + rng.below((m - n) as u64 + 1) as usize, n == 0)
+      }
+    };
+    let lazy = if rng.chance(1, 6) { "?" } else { "" };
+    (format!("{}{}{}", t, q, lazy), s.repeat(times), zero)
+  }
+  fn branch(rng: &mut Rng, depth: u32) -> (Vec<String>, String, bool) {
+    let n = 1 + rng.below(3);
+    let (mut ts, mut s, mut nullable) = (vec![], String::new(), true);
+    for _ in 0..n {
+      let (t, x, e) = piece(rng, depth);
+      ts.push(t);
+      s.push_str(&x);
+      nullable = nullable && e;
+    }
+    (ts, s, nullable)
+  }
+  fn alt(rng: &mut Rng, depth: u32, max: u64) -> (String, String, bool) {
+    let n = 1 + rng.below(max);
+    let bs: Vec<(Vec<String>, String, bool)> = (0..n).map(|_| branch(rng, depth)).collect();
+    let pick = rng.below(n) as usize;
+    (bs.iter().map(|b| b.0.concat()).collect::<Vec<_>>().join("|"), bs[pick].1.clone(), bs.iter().any(|b| b.2))
+  }
+  let n = 1 + rng.below(3);
+  let bs: Vec<(Vec<String>, String, bool)> = (0..n).map(|_| branch(rng, 2)).collect();
+  let pick = rng.below(n) as usize;
+  let (pre, post) = (if rng.chance(1, 8) { "^" } else { "" }, if rng.chance(1, 8) { "$" } else { "" });
+  let plain = format!("{}{}{}", pre, bs.iter().map(|b| b.0.concat()).collect::<Vec<_>>().join("|"), post);
+  // (a literal space vanishes under the flag x, in both notations)
+  let spaced = format!("{} {} {}", pre, bs.iter().map(|b| b.0.join(" ")).collect::<Vec<_>>().join("\n| "), post);
+  (plain, spaced, bs[pick].1.clone())
+}
+
+/// `matches` / `replace` / `split` with regular expressions proper (expectation: `regex_oracle_rx`).
+fn regex_families(rng: &mut Rng, scale: u64, add: &mut dyn FnMut(&'static str, Vec<String>, &'static str)) {
+  // (pattern, inputs): witnesses of every construct, always run
+  let fixed: Vec<(&str, Vec<&str>)> = vec![
+    (",{2}", vec!["a,,b,c", "a,b", ",,,,", ""]),
+    ("-{1,2}", vec!["x--y-z", "x---y", "xyz"]),
+    ("a{2,}", vec!["aaa-a-aa", "a", "baab"]),
+    ("a{0,1}b", vec!["ab", "b", "aab"]),
+    ("(ab){2}", vec!["ababab", "ab", "xababx"]),
+    ("[0-9]{3}", vec!["12-345-6789", "12", "1234"]),
+    ("[a-c]{2,3}x", vec!["abcx", "ax", "aabbccx"]),
+    (".{2}", vec!["abcde", "a", "ab"]),
+    ("\\d+", vec!["a1b22c333", "abc", "12"]),
+    ("\\d{2}-\\d{2}", vec!["12-34", "1-23", "x12-345"]),
+    ("\\s+", vec!["a b  c", "abc", " a "]),
+    ("\\w+", vec!["ab, cd", ",,", "a"]),
+    ("a|b", vec!["cab", "ccc", "ba"]),
+    ("ab|a", vec!["ab", "aab", "b"]),
+    ("a|ab", vec!["ab", "xabx"]),
+    ("(a|b)c", vec!["acbc", "cc", "abc"]),
+    ("^a", vec!["aaa", "baa", "a"]),
+    ("a$", vec!["aaa", "aab", "a"]),
+    ("^a+$", vec!["aaa", "aab", ""]),
+    ("x*y", vec!["xxyy", "y", "x"]),
+    ("x+?", vec!["xxx", "y"]),
+    ("a.c", vec!["abc", "a.c", "ac", "a-c-abc"]),
+    ("[^a]", vec!["aba", "aaa", ""]),
+    ("[,;-]", vec!["a,b;c-d", "abc"]),
+    ("\\.", vec!["a.b.c", "abc"]),
+    ("\\{2\\}", vec!["a{2}b", "aa"]),
+    ("\\(a\\)", vec!["(a)", "a"]),
+    ("a\\|b", vec!["a|b", "a", "b"]),
+    ("(?:ab)+c", vec!["ababc", "c", "abc"]),
+    ("(a)(b)?", vec!["ab", "a", "ba"]),
+    ("é{2}", vec!["éé", "é", "aééé"]),
+    // texts that are no regular expressions (in XPath and for the `regex` crate alike)
+    ("{2}", vec!["a{2}b", "aa"]),
+    ("a{2", vec!["aa", "a{2"]),
+    ("a{", vec!["a{", "a"]),
+    ("a{2,1}", vec!["aa", "a"]),
+    ("*a", vec!["a", "*a"]),
+    ("+", vec!["a+b", "+"]),
+    ("?", vec!["a?b"]),
+    ("a|*", vec!["a"]),
+    ("(", vec!["(", "a(b"]),
+    (")", vec![")", "a)b"]),
+    ("(a", vec!["a", "(a"]),
+    ("a)", vec!["a", "a)"]),
+    ("[a", vec!["a", "[a"]),
+    ("[z-a]", vec!["a", "z"]),
+    ("a\\", vec!["a", "a\\"]),
+  ];
+  let flag_sets = ["\"i\"", "\"s\"", "\"m\"", "\"x\"", "\"is\"", "\"mx\"", "\"smix\"", "\"\""];
+  let repls = ["#", "", "[$0]", "<$1>", "$2$1", "X Y"];
+  for (p, inputs) in &fixed {
+    for s in inputs {
+      let (ls, lp) = (lit_str(s), lit_str(p));
+      add("matches", vec![ls.clone(), lp.clone()], "regex-rx-fixed");
+      add("split", vec![ls.clone(), lp.clone()], "regex-rx-fixed");
+      for r in ["#", "[$0]", "<$1>"] {
+        add("replace", vec![ls.clone(), lp.clone(), lit_str(r)], "regex-rx-fixed");
+      }
+      for fl in ["\"i\"", "\"x\"", "\"sm\""] {
+        add("matches", vec![ls.clone(), lp.clone(), fl.into()], "regex-rx-fixed");
+        add("replace", vec![ls.clone(), lp.clone(), lit_str("#"), fl.into()], "regex-rx-fixed");
+      }
+    }
+  }
+  const CONTEXT: &[char] = &['a', 'b', 'c', 'x', '1', '2', ',', '-', ' ', 'é', 'A', 'B', 'z'];
+  for _ in 0..(110 * scale) {
+    let (plain, spaced, sample) = rx_pattern(rng);
+    let ctx = |rng: &mut Rng, max: u64| -> String { (0..rng.below(max + 1)).map(|_| *rng.pick(CONTEXT)).collect() };
+    let mut inputs: Vec<String> = vec![sample.clone(), format!("{}{}{}", ctx(rng, 3), sample, ctx(rng, 3)), format!("{}{}{}{}", sample, ctx(rng, 2), sample, ctx(rng, 2)), ctx(rng, 6)];
+    if !sample.is_empty() {
+      let cs: Vec<char> = sample.chars().collect();
+      let k = rng.below(cs.len() as u64) as usize;
+      inputs.push(cs.iter().enumerate().filter(|(i, _)| *i != k).map(|(_, c)| *c).collect());
+    }
+    inputs.push(format!("{}\n{}", sample, ctx(rng, 2)));
+    inputs.push(format!("{}\n{}\n", ctx(rng, 2), sample));
+    let lp = lit_str(&plain);
+    for s in &inputs {
+      let ls = lit_str(s);
+      add("matches", vec![ls.clone(), lp.clone()], "regex-rx");
+      add("split", vec![ls.clone(), lp.clone()], "regex-rx");
+      add("replace", vec![ls.clone(), lp.clone(), lit_str(*rng.pick(&repls[..]))], "regex-rx");
+      let fl = *rng.pick(&flag_sets);
+      // the flag i with the letter case of the input changed, the flag x with the pattern spread out
+      let swapped: String = s.chars().map(|c| if c.is_ascii_lowercase() { c.to_ascii_uppercase() } else if c.is_ascii_uppercase() { c.to_ascii_lowercase() } else { c }).collect();
+      let s2 = if fl.contains('i') { lit_str(&swapped) } else { ls.clone() };
+      let p2 = if fl.contains('x') { lit_str(&spaced) } else { lp.clone() };
+      add("matches", vec![s2.clone(), p2.clone(), fl.into()], "regex-rx-flags");
+      add("replace", vec![s2.clone(), p2.clone(), lit_str(*rng.pick(&repls[..])), fl.into()], "regex-rx-flags");
+      if fl.contains('i') {
+        add("matches", vec![s2.clone(), lp.clone()], "regex-rx-flags");
+      }
+    }
   }
 }
 
@@ -671,6 +919,18 @@ fn generate(rng: &mut Rng, thorough: bool) -> Vec<Call> {
       for (f, _) in TYPED_ORDERINGS {
         add("sort", vec![l.clone(), (*f).into()], "sort-typed");
       }
+      // the two parameters of different types: each item is converted to the type of the parameter it is given to
+      // (judged by `sort_law`: the relation is what a direct invocation f(i, j) answers)
+      for f in [
+        "function(x: list<number>, y: number) x[1] < y",
+        "function(x: number, y: list<number>) x < y[1]",
+        "function(x: number, y: list<number>) x > y[1]",
+        "function(x: Any, y: number) x < y",
+        "function(x: number, y: string) x != null and y = null",
+        "function(x: string, y: number) string length(x) < y",
+      ] {
+        add("sort", vec![l.clone(), f.into()], "sort-typed-mixed");
+      }
     }
   }
   // sort with ordering functions that are and are not total orders, on lists long enough for a library sort to notice
@@ -771,6 +1031,9 @@ fn generate(rng: &mut Rng, thorough: bool) -> Vec<Call> {
   // (`Spec.mode`, `Spec.stddev`; theorems core_mode_spec / core_stddev_spec): about 2 000 calls each per quick run
   stats_families(rng, scale, &mut add);
 
+  // ---------------------------------------------------------------- regular expressions proper (expectation: the second implementation `rx`)
+  regex_families(rng, scale, &mut add);
+
   // ---------------------------------------------------------------- contexts, not, number, string
   let ctxs = ["{}", "{a: 1}", "{a: 1, b: \"x\"}", "{b: 2, a: 1}", "{a: null}", "{a: {b: [1, 2]}}", "{\"a b\": 1, c: [true]}"];
   for c in ctxs {
@@ -795,6 +1058,61 @@ fn generate(rng: &mut Rng, thorough: bool) -> Vec<Call> {
   add("number", vec!["1".into(), "null".into(), "null".into()], "number");
   for x in ["null", "\"a\"", "\"a\\\"b\"", "true", "false", "1", "-12", "100", "[]", "[1, \"a\", true, null]", "[\"a\\\"b\"]", "[[1], [\"x\", [null]]]", "{a: \"x\\\"y\", b: [\"q\"]}", "[{a: 1}]", "{}"] {
     add("string", vec![x.into()], "string");
+  }
+
+  // ---------------------------------------------------------------- the built-ins that take any number of arguments × the shape of the arguments
+  // (no argument; one scalar; one list; ONE LIST OF LISTS; one list of lists and scalars; several lists; scalars
+  // and lists mixed; deeper nesting).  Only the aggregates read a single list argument as the list of their items;
+  // `concatenate`, `union` and `append` take every argument as it is, whatever its items are.
+  {
+    let scalars = ["1", "2.5", "-3", "true", "false", "null", "\"a\"", "\"b\"", "1/0"];
+    let flat_lists = ["[]", "[1]", "[1, 2]", "[2, 1, 2]", "[1, 2, 3]", "[true]", "[true, false]", "[false, null]", "[\"a\"]", "[\"b\", \"a\"]", "[null]", "[1, \"a\"]", "[1, null, 3]"];
+    let lists_of_lists = [
+      "[[]]", "[[], []]", "[[1]]", "[[1, 2, 3]]", "[[1], [2]]", "[[1, 2], [2, 3]]", "[[1], [2], [3]]", "[[2], [1], [2]]", "[[true]]", "[[true], [false]]", "[[false], [true, true]]", "[[\"a\"], [\"b\"]]", "[[null]]",
+      "[[1], []]", "[[], [1]]", "[[1, [2]], []]", "[[[1]]]", "[[[1]], [[2]]]", "[[[1], [2]]]", "[[1], [1]]", "[[1, 2], [1, 2]]", "[[1.0], [1]]",
+    ];
+    let lists_mixed = ["[[1], 2]", "[1, [2]]", "[[1], 2, [3]]", "[[true], false]", "[[], 1]", "[null, [1]]", "[[1], null]", "[[\"a\"], \"b\"]", "[[1], {a: 1}]"];
+    let mut pool: Vec<&str> = vec![];
+    pool.extend(scalars.iter());
+    pool.extend(flat_lists.iter());
+    pool.extend(lists_of_lists.iter());
+    pool.extend(lists_mixed.iter());
+    for f in VARIADIC.iter().copied() {
+      add(f, vec![], "variadic-shape:none");
+      for a in scalars {
+        add(f, vec![a.into()], "variadic-shape:one-scalar");
+      }
+      for a in flat_lists {
+        add(f, vec![a.into()], "variadic-shape:one-list");
+      }
+      for a in lists_of_lists {
+        add(f, vec![a.into()], "variadic-shape:one-list-of-lists");
+      }
+      for a in lists_mixed {
+        add(f, vec![a.into()], "variadic-shape:one-list-of-lists-and-items");
+      }
+      // several lists: every ordered pair of a small set, a sample of the rest
+      let few = ["[]", "[1]", "[1, 2]", "[[1]]", "[[1], [2]]", "[true]", "[\"a\"]"];
+      for a in few {
+        for b in few {
+          add(f, vec![a.into(), b.into()], "variadic-shape:several-lists");
+        }
+      }
+      for _ in 0..(40 * scale) {
+        let n = 2 + rng.below(3) as usize;
+        let lists_only = rng.chance(1, 2);
+        let args: Vec<String> = (0..n)
+          .map(|_| if lists_only { (*rng.pick(&pool[scalars.len()..])).to_string() } else { (*rng.pick(&pool)).to_string() })
+          .collect();
+        add(f, args, if lists_only { "variadic-shape:several-lists" } else { "variadic-shape:mixed" });
+      }
+      // generated lists of lists: 1..3 inner lists of 0..3 generated items
+      for _ in 0..(20 * scale) {
+        let k = 1 + rng.below(3);
+        let inner: Vec<String> = (0..k).map(|_| rand_list(rng, 3, 1)).collect();
+        add(f, vec![format!("[{}]", inner.join(", "))], "variadic-shape:one-list-of-lists");
+      }
+    }
   }
 
   // ---------------------------------------------------------------- every arity 0..5 with arbitrary arguments
@@ -1241,6 +1559,7 @@ pub fn run(cfg: &Cfg) -> Report {
   }
   let answers = model.ask_batch(&reqs);
 
+  let mut rxdump = std::env::var("VERIF_C08_RXDUMP").ok().and_then(|p| std::fs::File::create(p).ok());
   let mut unmodelled = 0u64;
   let mut nospec = 0u64;
   for d in &done {
@@ -1333,6 +1652,14 @@ pub fn run(cfg: &Cfg) -> Report {
     // ---- matches / replace / split against the written-out expectation (flags, q, empty delimiter)
     if let Some((want, sig)) = regex_oracle(&d.call) {
       rep.hit("regex-oracle:judged");
+      if regex_oracle_literal(&d.call).is_none() {
+        rep.hit(&format!("regex-oracle:second implementation:{}", bif));
+      }
+      // for lib/regex_second_opinion.py (python3's `re` on the judged calls)
+      if let Some(f) = rxdump.as_mut() {
+        use std::io::Write;
+        let _ = writeln!(f, "{}", json!({"bif": bif, "args": d.call.args, "want": want.show()}));
+      }
       let forms: Vec<(&Impl, String)> = std::iter::once((&d.pos, input.clone())).chain(d.named.iter().zip(d.named_text.iter()).map(|(n, t)| (n, input_of(&d.call, t)))).collect();
       for (imp, inp) in forms {
         if let Impl::Val(v) = imp {
@@ -1467,4 +1794,724 @@ pub fn run(cfg: &Cfg) -> Report {
   rep.extra.insert("integer_mode_observed".into(), json!("checked (the harness build has overflow checks on)"));
   rep.model_requests = model.requests;
   rep
+}
+
+// ------------------------------------------------------------------------------------------------
+// A second implementation of the regular expressions of `matches` / `replace` / `split`, written from
+// XPath F&O 3.0 §5.6 / XML Schema part 2 appendix F (the `regex` crate is the implementation under test and
+// is not consulted): a parser for the constructs below and a backtracking matcher (leftmost match, the first
+// alternative that leads to a match, greedy quantifiers unless followed by `?`).
+//
+//   branches `a|b`, pieces with `? * + {n} {n,} {n,m}` (and their reluctant forms), groups `( )` / `(?: )`,
+//   `.`, `^`, `$`, classes `[abc] [a-z] [^…]` with the escapes below, `\d \D \s \S \w \W`, the single-character
+//   escapes `\n \r \t \\ \| \. \- \^ \? \* \+ \{ \} \( \) \[ \] \$`; flags s m i x.
+//
+// `parse` answers `Invalid` only where both XPath and the `regex` crate reject the text (a quantifier with
+// nothing before it, unbalanced parentheses, an unclosed class or `{`, a reversed range or count, a trailing
+// backslash), and `Unsupported` (no verdict) wherever the two notations are known to differ or this module does
+// not know: back-references, `\p{…}`, `\i \c`, `\b` and the other escapes of the `regex` crate, class
+// subtraction / intersection, a bare `]` or `}`, a quantifier after a quantifier or after an anchor, `{,n}`,
+// `#` or white space inside a class or before a quantifier under the flag x.  `\w`, `\s`, `.` and the flag i
+// are judged only on inputs where XPath's and Unicode's definitions coincide (`rx::input_ok`).
+pub mod rx {
+  #[derive(Clone, Debug)]
+  pub enum Item {
+    Ch(char),
+    Range(char, char),
+    /// `\d \s \w` (false) and `\D \S \W` (true)
+    Esc(char, bool),
+  }
+
+  #[derive(Clone, Debug)]
+  pub enum Node {
+    Char(char),
+    Any,
+    Class(bool, Vec<Item>),
+    Start,
+    End,
+    Group(Box<Node>, Option<usize>),
+    Cat(Vec<Node>),
+    Alt(Vec<Node>),
+    Rep(Box<Node>, usize, Option<usize>, bool),
+  }
+
+  #[derive(Clone, Copy, Default, Debug)]
+  pub struct Flags {
+    pub i: bool,
+    pub s: bool,
+    pub m: bool,
+    pub x: bool,
+  }
+
+  impl Flags {
+    pub fn of(letters: &str) -> Flags {
+      Flags { i: letters.contains('i'), s: letters.contains('s'), m: letters.contains('m'), x: letters.contains('x') }
+    }
+  }
+
+  pub enum Parsed {
+    Ok(Node, usize),
+    Invalid,
+    Unsupported,
+  }
+
+  enum Stop {
+    Invalid,
+    Unsupported,
+  }
+
+  struct P {
+    cs: Vec<char>,
+    pos: usize,
+    groups: usize,
+  }
+
+  const SINGLE_ESCAPES: &str = "\\|.-^?*+{}()[]$";
+
+  fn class_escape(c: char) -> Option<Item> {
+    match c {
+      'd' | 's' | 'w' => Some(Item::Esc(c, false)),
+      'D' | 'S' | 'W' => Some(Item::Esc(c.to_ascii_lowercase(), true)),
+      _ => None,
+    }
+  }
+
+  impl P {
+    fn peek(&self) -> Option<char> {
+      self.cs.get(self.pos).copied()
+    }
+    fn alt(&mut self, depth: usize) -> Result<Node, Stop> {
+      let mut branches = vec![self.branch(depth)?];
+      while self.peek() == Some('|') {
+        self.pos += 1;
+        branches.push(self.branch(depth)?);
+      }
+      Ok(if branches.len() == 1 { branches.pop().unwrap() } else { Node::Alt(branches) })
+    }
+    fn branch(&mut self, depth: usize) -> Result<Node, Stop> {
+      let mut pieces = vec![];
+      loop {
+        match self.peek() {
+          None | Some('|') => break,
+          Some(')') => {
+            if depth == 0 {
+              return Err(Stop::Invalid);
+            }
+            break;
+          }
+          Some(_) => pieces.push(self.piece(depth)?),
+        }
+      }
+      Ok(Node::Cat(pieces))
+    }
+    fn number(&mut self) -> Option<usize> {
+      let start = self.pos;
+      while matches!(self.peek(), Some(c) if c.is_ascii_digit()) {
+        self.pos += 1;
+      }
+      if self.pos == start || self.pos - start > 3 {
+        return None;
+      }
+      self.cs[start..self.pos].iter().collect::<String>().parse().ok()
+    }
+    fn piece(&mut self, depth: usize) -> Result<Node, Stop> {
+      let atom = self.atom(depth)?;
+      let (min, max) = match self.peek() {
+        Some('?') => {
+          self.pos += 1;
+          (0, Some(1))
+        }
+        Some('*') => {
+          self.pos += 1;
+          (0, None)
+        }
+        Some('+') => {
+          self.pos += 1;
+          (1, None)
+        }
+        Some('{') => {
+          self.pos += 1;
+          if self.peek() == Some(',') {
+            return Err(Stop::Unsupported);
+          }
+          let n = match self.number() {
+            Some(n) => n,
+            // `a{`, `a{x}`: not a quantifier in either notation, the `regex` crate reports an error as well
+            None => return Err(if self.peek().is_none() { Stop::Invalid } else { Stop::Unsupported }),
+          };
+          match self.peek() {
+            Some('}') => {
+              self.pos += 1;
+              (n, Some(n))
+            }
+            Some(',') => {
+              self.pos += 1;
+              if self.peek() == Some('}') {
+                self.pos += 1;
+                (n, None)
+              } else {
+                let m = match self.number() {
+                  Some(m) => m,
+                  None => return Err(if self.peek().is_none() { Stop::Invalid } else { Stop::Unsupported }),
+                };
+                if self.peek() != Some('}') {
+                  return Err(if self.peek().is_none() { Stop::Invalid } else { Stop::Unsupported });
+                }
+                self.pos += 1;
+                if m < n {
+                  return Err(Stop::Invalid);
+                }
+                (n, Some(m))
+              }
+            }
+            None => return Err(Stop::Invalid),
+            Some(_) => return Err(Stop::Unsupported),
+          }
+        }
+        _ => return Ok(atom),
+      };
+      if matches!(atom, Node::Start | Node::End) {
+        return Err(Stop::Unsupported);
+      }
+      let greedy = if self.peek() == Some('?') {
+        self.pos += 1;
+        false
+      } else {
+        true
+      };
+      // a quantifier after a quantifier: an error in XPath, accepted by the `regex` crate
+      if matches!(self.peek(), Some('?') | Some('*') | Some('+') | Some('{')) {
+        return Err(Stop::Unsupported);
+      }
+      Ok(Node::Rep(Box::new(atom), min, max, greedy))
+    }
+    fn atom(&mut self, depth: usize) -> Result<Node, Stop> {
+      let c = self.peek().ok_or(Stop::Invalid)?;
+      self.pos += 1;
+      match c {
+        '.' => Ok(Node::Any),
+        '^' => Ok(Node::Start),
+        '$' => Ok(Node::End),
+        '?' | '*' | '+' | '{' => Err(Stop::Invalid),
+        '}' | ']' => Err(Stop::Unsupported),
+        '(' => {
+          let capture = if self.peek() == Some('?') {
+            if self.cs.get(self.pos + 1) == Some(&':') {
+              self.pos += 2;
+              None
+            } else {
+              return Err(Stop::Unsupported);
+            }
+          } else {
+            self.groups += 1;
+            Some(self.groups)
+          };
+          let inner = self.alt(depth + 1)?;
+          if self.peek() != Some(')') {
+            return Err(Stop::Invalid);
+          }
+          self.pos += 1;
+          Ok(Node::Group(Box::new(inner), capture))
+        }
+        '[' => self.class(),
+        '\\' => {
+          let e = self.peek().ok_or(Stop::Invalid)?;
+          self.pos += 1;
+          if SINGLE_ESCAPES.contains(e) {
+            Ok(Node::Char(e))
+          } else if let Some(item) = class_escape(e) {
+            Ok(Node::Class(false, vec![item]))
+          } else {
+            match e {
+              'n' => Ok(Node::Char('\n')),
+              'r' => Ok(Node::Char('\r')),
+              't' => Ok(Node::Char('\t')),
+              _ => Err(Stop::Unsupported),
+            }
+          }
+        }
+        c => Ok(Node::Char(c)),
+      }
+    }
+    fn class(&mut self) -> Result<Node, Stop> {
+      let negated = if self.peek() == Some('^') {
+        self.pos += 1;
+        true
+      } else {
+        false
+      };
+      let mut items: Vec<Item> = vec![];
+      let mut first = true;
+      loop {
+        let c = match self.peek() {
+          Some(c) => c,
+          None => return Err(Stop::Invalid),
+        };
+        self.pos += 1;
+        let single = match c {
+          ']' => {
+            if first {
+              return Err(Stop::Unsupported);
+            }
+            break;
+          }
+          '[' | '&' | '~' => return Err(Stop::Unsupported),
+          '\\' => {
+            let e = self.peek().ok_or(Stop::Invalid)?;
+            self.pos += 1;
+            if SINGLE_ESCAPES.contains(e) {
+              e
+            } else if let Some(item) = class_escape(e) {
+              // a class escape cannot be the end of a range
+              if self.peek() == Some('-') && self.cs.get(self.pos + 1) != Some(&']') {
+                return Err(Stop::Unsupported);
+              }
+              items.push(item);
+              first = false;
+              continue;
+            } else {
+              match e {
+                'n' => '\n',
+                'r' => '\r',
+                't' => '\t',
+                _ => return Err(Stop::Unsupported),
+              }
+            }
+          }
+          '-' => {
+            // a hyphen stands for itself only at the start or at the end of the class
+            if first || self.peek() == Some(']') {
+              '-'
+            } else {
+              return Err(Stop::Unsupported);
+            }
+          }
+          c => c,
+        };
+        first = false;
+        if self.peek() == Some('-') && self.cs.get(self.pos + 1).map_or(false, |n| *n != ']') {
+          self.pos += 1;
+          let hi = match self.peek() {
+            Some('\\') => {
+              self.pos += 1;
+              let e = self.peek().ok_or(Stop::Invalid)?;
+              if SINGLE_ESCAPES.contains(e) {
+                e
+              } else {
+                return Err(Stop::Unsupported);
+              }
+            }
+            Some('[') | Some('-') | Some('&') | Some('~') => return Err(Stop::Unsupported),
+            Some(h) => h,
+            None => return Err(Stop::Invalid),
+          };
+          self.pos += 1;
+          if hi < single {
+            return Err(Stop::Invalid);
+          }
+          items.push(Item::Range(single, hi));
+        } else {
+          items.push(Item::Ch(single));
+        }
+      }
+      Ok(Node::Class(negated, items))
+    }
+  }
+
+  /// under the flag x white space in the pattern is dropped (outside classes); `None`: a place where the two
+  /// notations may differ
+  fn strip_x(p: &str) -> Option<String> {
+    let cs: Vec<char> = p.chars().collect();
+    let mut out = String::new();
+    let mut in_class = false;
+    let mut i = 0;
+    while i < cs.len() {
+      let c = cs[i];
+      if c == '#' {
+        return None;
+      }
+      if c == '\\' {
+        let e = *cs.get(i + 1)?;
+        if e.is_whitespace() {
+          return None;
+        }
+        out.push(c);
+        out.push(e);
+        i += 2;
+        continue;
+      }
+      if in_class {
+        if c.is_whitespace() {
+          return None;
+        }
+        if c == ']' {
+          in_class = false;
+        }
+        out.push(c);
+      } else if c.is_whitespace() {
+        // white space directly before a quantifier, or inside `{…}`
+        let next = cs[i + 1..].iter().find(|d| !d.is_whitespace());
+        if matches!(next, Some('?') | Some('*') | Some('+') | Some('{') | Some('}') | Some(',')) || matches!(next, Some(d) if d.is_ascii_digit() && out.ends_with(|e: char| e == '{' || e == ',' || e.is_ascii_digit()) && out.contains('{')) {
+          return None;
+        }
+        if !" \t\n\r".contains(c) {
+          return None;
+        }
+      } else {
+        if c == '[' {
+          in_class = true;
+        }
+        out.push(c);
+      }
+      i += 1;
+    }
+    Some(out)
+  }
+
+  pub fn parse(pattern: &str, flags: Flags) -> Parsed {
+    let text = if flags.x {
+      match strip_x(pattern) {
+        Some(t) => t,
+        None => return Parsed::Unsupported,
+      }
+    } else {
+      pattern.to_string()
+    };
+    let mut p = P { cs: text.chars().collect(), pos: 0, groups: 0 };
+    match p.alt(0) {
+      Ok(node) => {
+        if p.pos != p.cs.len() {
+          // a closing parenthesis without an opening one
+          return Parsed::Invalid;
+        }
+        Parsed::Ok(node, p.groups)
+      }
+      Err(Stop::Invalid) => Parsed::Invalid,
+      Err(Stop::Unsupported) => Parsed::Unsupported,
+    }
+  }
+
+  /// can the node match the empty string?
+  pub fn nullable(n: &Node) -> bool {
+    match n {
+      Node::Char(_) | Node::Any | Node::Class(..) => false,
+      Node::Start | Node::End => true,
+      Node::Group(inner, _) => nullable(inner),
+      Node::Cat(v) => v.iter().all(nullable),
+      Node::Alt(v) => v.iter().any(nullable),
+      Node::Rep(inner, min, _, _) => *min == 0 || nullable(inner),
+    }
+  }
+
+  /// a quantified part that can match the empty string: the iteration rules of the engines differ, no verdict
+  pub fn has_nullable_iteration(n: &Node) -> bool {
+    match n {
+      Node::Group(inner, _) => has_nullable_iteration(inner),
+      Node::Cat(v) | Node::Alt(v) => v.iter().any(has_nullable_iteration),
+      Node::Rep(inner, _, _, _) => nullable(inner) || has_nullable_iteration(inner),
+      _ => false,
+    }
+  }
+
+  fn uses(n: &Node, what: &dyn Fn(&Node) -> bool) -> bool {
+    what(n)
+      || match n {
+        Node::Group(inner, _) | Node::Rep(inner, ..) => uses(inner, what),
+        Node::Cat(v) | Node::Alt(v) => v.iter().any(|x| uses(x, what)),
+        _ => false,
+      }
+  }
+
+  fn class_uses(n: &Node, e: char) -> bool {
+    uses(n, &|x| matches!(x, Node::Class(_, items) if items.iter().any(|i| matches!(i, Item::Esc(c, _) if *c == e))))
+  }
+
+  /// The input (and the literal characters of the pattern) lie where XPath's definitions and Unicode's coincide
+  /// for what the pattern uses: `\s` / `.` / the flag x: white space is one of space, tab, newline; `\w`: every
+  /// character is a letter or a digit (a word character in both) or one of the punctuation and separator
+  /// characters that are none in both; `\d`: digits are ASCII digits or letters; the flag i: no character has a
+  /// case mapping outside ASCII.
+  pub fn input_ok(n: &Node, flags: Flags, texts: &[&str]) -> bool {
+    let all = |f: &dyn Fn(char) -> bool| texts.iter().all(|t| t.chars().all(|c| f(c)));
+    if !all(&|c| !c.is_whitespace() || " \t\n".contains(c)) {
+      return false;
+    }
+    if !all(&|c| c != '\r') {
+      return false;
+    }
+    if class_uses(n, 'w') && !all(&|c| c.is_alphanumeric() && !c.is_numeric() || c.is_ascii_digit() || " \t\n,.;:!?-()[]{}\"'/\\".contains(c)) {
+      return false;
+    }
+    if class_uses(n, 'd') && !all(&|c| !c.is_numeric() || c.is_ascii_digit()) {
+      return false;
+    }
+    if flags.i && !all(&|c| c.is_ascii() || (c.to_lowercase().eq(std::iter::once(c)) && c.to_uppercase().eq(std::iter::once(c)))) {
+      return false;
+    }
+    true
+  }
+
+  /// the literal characters of a pattern (for `input_ok`)
+  pub fn literals(n: &Node, out: &mut String) {
+    match n {
+      Node::Char(c) => out.push(*c),
+      Node::Class(_, items) => {
+        for i in items {
+          match i {
+            Item::Ch(c) => out.push(*c),
+            Item::Range(a, b) => {
+              out.push(*a);
+              out.push(*b);
+            }
+            Item::Esc(..) => {}
+          }
+        }
+      }
+      Node::Group(inner, _) | Node::Rep(inner, ..) => literals(inner, out),
+      Node::Cat(v) | Node::Alt(v) => v.iter().for_each(|x| literals(x, out)),
+      _ => {}
+    }
+  }
+
+  type Caps = Vec<Option<(usize, usize)>>;
+
+  pub struct Matcher<'a> {
+    pub s: &'a [char],
+    pub flags: Flags,
+    pub steps: std::cell::Cell<u64>,
+  }
+
+  impl<'a> Matcher<'a> {
+    fn same(&self, a: char, b: char) -> bool {
+      if self.flags.i {
+        a.to_ascii_lowercase() == b.to_ascii_lowercase()
+      } else {
+        a == b
+      }
+    }
+    fn item(&self, i: &Item, c: char) -> bool {
+      let one = |c: char| match i {
+        Item::Ch(x) => *x == c,
+        Item::Range(a, b) => *a <= c && c <= *b,
+        Item::Esc('d', neg) => c.is_ascii_digit() != *neg,
+        Item::Esc('s', neg) => " \t\n\r".contains(c) != *neg,
+        Item::Esc(_, neg) => c.is_alphanumeric() != *neg,
+      };
+      if self.flags.i && !matches!(i, Item::Esc(..)) {
+        one(c.to_ascii_lowercase()) || one(c.to_ascii_uppercase())
+      } else {
+        one(c)
+      }
+    }
+    fn tick(&self) -> bool {
+      self.steps.set(self.steps.get() + 1);
+      self.steps.get() < 400_000
+    }
+    fn m(&self, n: &Node, i: usize, caps: &mut Caps, k: &mut dyn FnMut(usize, &mut Caps) -> bool) -> bool {
+      if !self.tick() {
+        return false;
+      }
+      let s = self.s;
+      match n {
+        Node::Char(c) => i < s.len() && self.same(s[i], *c) && k(i + 1, caps),
+        Node::Any => i < s.len() && (self.flags.s || s[i] != '\n') && k(i + 1, caps),
+        Node::Class(neg, items) => i < s.len() && (items.iter().any(|it| self.item(it, s[i])) != *neg) && k(i + 1, caps),
+        Node::Start => (i == 0 || (self.flags.m && s[i - 1] == '\n')) && k(i, caps),
+        Node::End => (i == s.len() || (self.flags.m && s[i] == '\n')) && k(i, caps),
+        Node::Group(inner, None) => self.m(inner, i, caps, k),
+        Node::Group(inner, Some(g)) => {
+          let g = *g;
+          let before = caps[g];
+          let ok = self.m(inner, i, caps, &mut |j, caps| {
+            let saved = caps[g];
+            caps[g] = Some((i, j));
+            if k(j, caps) {
+              true
+            } else {
+              caps[g] = saved;
+              false
+            }
+          });
+          if !ok {
+            caps[g] = before;
+          }
+          ok
+        }
+        Node::Cat(v) => self.cat(v, 0, i, caps, k),
+        Node::Alt(v) => {
+          for b in v {
+            if self.m(b, i, caps, k) {
+              return true;
+            }
+          }
+          false
+        }
+        Node::Rep(inner, min, max, greedy) => self.rep(inner, *min, *max, *greedy, 0, i, caps, k),
+      }
+    }
+    fn cat(&self, v: &[Node], idx: usize, i: usize, caps: &mut Caps, k: &mut dyn FnMut(usize, &mut Caps) -> bool) -> bool {
+      if idx == v.len() {
+        k(i, caps)
+      } else {
+        self.m(&v[idx], i, caps, &mut |j, caps| self.cat(v, idx + 1, j, caps, k))
+      }
+    }
+    #[allow(clippy::too_many_arguments)]
+    fn rep(&self, inner: &Node, min: usize, max: Option<usize>, greedy: bool, count: usize, i: usize, caps: &mut Caps, k: &mut dyn FnMut(usize, &mut Caps) -> bool) -> bool {
+      let can_more = max.map_or(true, |m| count < m);
+      if count < min {
+        return self.m(inner, i, caps, &mut |j, caps| self.rep(inner, min, max, greedy, count + 1, j, caps, k));
+      }
+      if greedy {
+        if can_more && self.m(inner, i, caps, &mut |j, caps| j != i && self.rep(inner, min, max, greedy, count + 1, j, caps, k)) {
+          return true;
+        }
+        k(i, caps)
+      } else {
+        if k(i, caps) {
+          return true;
+        }
+        can_more && self.m(inner, i, caps, &mut |j, caps| j != i && self.rep(inner, min, max, greedy, count + 1, j, caps, k))
+      }
+    }
+    /// the leftmost match at or after `from`: (start, end, groups); `Err`: out of budget
+    pub fn search(&self, root: &Node, groups: usize, from: usize) -> Result<Option<(usize, usize, Caps)>, ()> {
+      for start in from..=self.s.len() {
+        let mut caps: Caps = vec![None; groups + 1];
+        let mut end = None;
+        let mut found_caps: Caps = vec![];
+        let ok = self.m(root, start, &mut caps, &mut |j, caps| {
+          end = Some(j);
+          found_caps = caps.clone();
+          true
+        });
+        if self.steps.get() >= 400_000 {
+          return Err(());
+        }
+        if ok {
+          return Ok(Some((start, end.unwrap(), found_caps)));
+        }
+      }
+      Ok(None)
+    }
+  }
+
+  /// the replacement string of `replace`: literal text and `$N` (one digit); `None`: anything else with `$` or `\`
+  pub enum Piece {
+    Text(String),
+    Group(usize),
+  }
+
+  pub fn replacement(r: &str) -> Option<Vec<Piece>> {
+    let cs: Vec<char> = r.chars().collect();
+    let mut out = vec![];
+    let mut cur = String::new();
+    let mut i = 0;
+    while i < cs.len() {
+      match cs[i] {
+        '\\' => return None,
+        '$' => {
+          let d = *cs.get(i + 1)?;
+          if !d.is_ascii_digit() {
+            return None;
+          }
+          // more digits, or `$0` followed by a name character: the notations differ
+          if let Some(n) = cs.get(i + 2) {
+            if n.is_ascii_digit() || (d == '0' && (n.is_alphanumeric() || *n == '_')) {
+              return None;
+            }
+          }
+          if !cur.is_empty() {
+            out.push(Piece::Text(std::mem::take(&mut cur)));
+          }
+          out.push(Piece::Group(d as usize - '0' as usize));
+          i += 2;
+        }
+        c => {
+          cur.push(c);
+          i += 1;
+        }
+      }
+    }
+    if !cur.is_empty() {
+      out.push(Piece::Text(cur));
+    }
+    Some(out)
+  }
+
+  pub enum Verdict {
+    /// the text is no regular expression
+    Invalid,
+    Matches(bool),
+    Replaced(String),
+    Pieces(Vec<String>),
+    /// the pattern matches the empty string (an error for replace and split)
+    MatchesEmpty,
+  }
+
+  /// What `matches` (`what` = 'm'), `replace` ('r') or `split` ('s') is specified to return, where this module knows it.
+  pub fn verdict(what: char, input: &str, pattern: &str, flag_letters: &str, repl: &str) -> Option<Verdict> {
+    let flags = Flags::of(flag_letters);
+    let (root, groups) = match parse(pattern, flags) {
+      Parsed::Ok(n, g) => (n, g),
+      Parsed::Invalid => return Some(Verdict::Invalid),
+      Parsed::Unsupported => return None,
+    };
+    if has_nullable_iteration(&root) {
+      return None;
+    }
+    let mut lits = String::new();
+    literals(&root, &mut lits);
+    if !input_ok(&root, flags, &[input, &lits]) {
+      return None;
+    }
+    let s: Vec<char> = input.chars().collect();
+    let mt = Matcher { s: &s, flags, steps: std::cell::Cell::new(0) };
+    if what == 'm' {
+      return Some(Verdict::Matches(mt.search(&root, groups, 0).ok()?.is_some()));
+    }
+    if nullable(&root) {
+      return Some(Verdict::MatchesEmpty);
+    }
+    let pieces = if what == 'r' { Some(replacement(repl)?) } else { None };
+    let mut out_r = String::new();
+    let mut out_s: Vec<String> = vec![];
+    let mut pos = 0;
+    loop {
+      match mt.search(&root, groups, pos).ok()? {
+        None => break,
+        Some((a, b, caps)) => {
+          if b == a {
+            return None;
+          }
+          let between: String = s[pos..a].iter().collect();
+          if let Some(ps) = &pieces {
+            out_r.push_str(&between);
+            for p in ps {
+              match p {
+                Piece::Text(t) => out_r.push_str(t),
+                Piece::Group(0) => out_r.extend(s[a..b].iter()),
+                Piece::Group(g) => {
+                  if let Some(Some((x, y))) = caps.get(*g) {
+                    out_r.extend(s[*x..*y].iter());
+                  }
+                }
+              }
+            }
+          } else {
+            out_s.push(between);
+          }
+          pos = b;
+        }
+      }
+    }
+    let rest: String = s[pos..].iter().collect();
+    if pieces.is_some() {
+      out_r.push_str(&rest);
+      Some(Verdict::Replaced(out_r))
+    } else {
+      out_s.push(rest);
+      Some(Verdict::Pieces(out_s))
+    }
+  }
 }
